@@ -36,6 +36,9 @@ Not(e) == [k |-> "not", e |-> e]
 SubM(a, b) == [k |-> "sub", a |-> a, b |-> b]
 GSubM(a, b) == [k |-> "gsub", a |-> a, b |-> b]        \* the same method called on the result of another call: F.Me().Sub(a, b)
 Bool(v) == [k |-> "bool", bv |-> v]
+\* F.Kind(<literal>): a method with a loosely typed parameter tells of which kind the literal it was handed is
+\* (1 integer, 2 real, 3 string, 4 boolean) - argument lists whose literals only PRINT alike (1, 1.0, "1"; true, "true") differ
+KindM(a) == [k |-> "kind", a |-> a]
 
 NumOps == {"add", "sub", "mul", "band", "bor"}
 \* bitwise operators on small naturals
@@ -53,6 +56,8 @@ Ev(t, f) ==
     [] t.k = "not" -> [t |-> "b", b |-> ~Ev(t.e, f).b]
     [] t.k = "bool" -> [t |-> "b", b |-> t.bv]
     [] t.k \in {"sub", "gsub"} -> [t |-> "n", v |-> SubD(Ev(t.a, f).v, Ev(t.b, f).v)]
+    [] t.k = "kind" -> LET a == Ev(t.a, f) IN
+                       [t |-> "n", v |-> D(CASE a.t = "n" -> (IF a.v.f THEN 2 ELSE 1) [] a.t = "s" -> 3 [] a.t = "b" -> 4, 0)]
     [] t.k = "bin" ->
          LET a == Ev(t.l, f)  b == Ev(t.r, f) IN
          CASE t.op = "add" /\ a.t = "s" -> [t |-> "s", s |-> a.s \o b.s]
@@ -127,6 +132,7 @@ SelFamily == { [fam |-> "selector", c1 |-> Bin(c, F(p[1]), C(D(k, 0))), a1 |-> F
                 facts |-> IntFacts] : p \in {<<"GX", "OX">>, <<"OX", "OY">>}, c \in {"eq", "gt"}, k \in {2, 12} }
              \cup { [fam |-> "selector", c1 |-> Bin(c, F(p[1]), Str("a")), a1 |-> F(p[1]), c2 |-> Bin(c, F(p[2]), Str("a")), a2 |-> F(p[2]),
                 facts |-> IntFacts] : p \in {<<"GS", "GT">>, <<"S", "T">>}, c \in {"eq", "ne"} }
+KindLits == {C(D(1, 0)), C(DF(1, 0)), Str("1"), Str("1.0"), Bool(TRUE), Str("true"), C(D(0, 0)), Str("0"), Str("")}
 ArgFamily == { [fam |-> "argument", c1 |-> Bin(c, SubM(p[1], p[2]), C(D(0, 0))), a1 |-> SubM(p[1], p[2]),
                 c2 |-> Bin(c, SubM(q[1], q[2]), C(D(0, 0))), a2 |-> SubM(q[1], q[2]), facts |-> IntFacts] :
                 p \in {<<F("X"), C(D(1, 0))>>, <<F("X"), F("Y")>>}, q \in {<<F("X"), C(D(2, 0))>>, <<C(D(1, 0)), F("X")>>, <<F("Y"), F("X")>>},
@@ -135,6 +141,9 @@ ArgFamily == { [fam |-> "argument", c1 |-> Bin(c, SubM(p[1], p[2]), C(D(0, 0))),
                 c2 |-> Bin(c, GSubM(q[1], q[2]), C(D(0, 0))), a2 |-> GSubM(q[1], q[2]), facts |-> IntFacts] :
                 p \in {<<F("X"), C(D(1, 0))>>, <<F("GX"), F("GY")>>}, q \in {<<F("X"), C(D(2, 0))>>, <<C(D(1, 0)), F("X")>>, <<F("GY"), F("GX")>>},
                 c \in {"gt", "eq"} }
+             \cup { [fam |-> "argument", c1 |-> Bin(c, KindM(p), C(D(2, 0))), a1 |-> KindM(p),
+                c2 |-> Bin(c, KindM(q), C(D(2, 0))), a2 |-> KindM(q), facts |-> IntFacts] :
+                p \in KindLits, q \in KindLits, c \in {"gt", "eq"} }
 \* constants of different types whose stored encodings coincide or nearly so: 0, 0.0, "", false; 1, 1.0, "1", true, "0"
 CrossTerms == { <<Bin("eq", F("X"), C(D(0, 0))), C(D(0, 0))>>, <<Bin("eq", F("V"), C(DF(0, 0))), C(DF(0, 0))>>, <<Bin("eq", F("S"), Str("")), Str("")>>,
                 <<Bin("eq", F("B"), Bool(FALSE)), C(D(7, 0))>>, <<Bin("eq", F("X"), C(D(1, 0))), C(D(1, 0))>>, <<Bin("eq", F("V"), C(DF(1, 0))), C(DF(1, 0))>>,
